@@ -106,10 +106,12 @@ def fontPure (W : World) (spec : FontSpec) (src : List (Option Nat)) : Font :=
   else if spec.kind = 1 then
     { kind := 1, enc := [], tounicode := tou, cmap := none, umap := none, src := src }
   else if spec.hasToUnicode then
-    { kind := 2, enc := [], tounicode := tou, cmap := W.loadCMap spec.cmap, umap := none, src := src }
+    { kind := spec.kind, enc := [], tounicode := tou,
+      cmap := if spec.kind = 3 then none else W.loadCMap spec.cmap, umap := none, src := src }
   else
-    { kind := 2, enc := [], tounicode := tou, cmap := W.loadCMap spec.cmap, umap := W.loadUMap spec.umap,
-      src := src }
+    { kind := spec.kind, enc := [], tounicode := tou,
+      cmap := if spec.kind = 3 then none else W.loadCMap spec.cmap,
+      umap := (W.loadUMap spec.umap).map (fun p => if spec.vertical then p.2 else p.1), src := src }
 
 theorem useCMapEffect_ok (W : World) (t : Tables) (spec : FontSpec) (h : TablesOk W t) :
     TablesOk W (useCMapEffect W t spec) := by
@@ -118,12 +120,20 @@ theorem useCMapEffect_ok (W : World) (t : Tables) (spec : FontSpec) (h : TablesO
   · exact (getCMap_spec W t _ h).2
   · exact h
 
+theorem cmapStep_spec (W : World) (t : Tables) (spec : FontSpec) (h : TablesOk W t) :
+    (cmapStep W t spec).1 = (if spec.kind = 3 then none else W.loadCMap spec.cmap) ∧
+    TablesOk W (cmapStep W t spec).2 := by
+  unfold cmapStep
+  split
+  · exact ⟨rfl, h⟩
+  · exact getCMap_spec W t _ h
+
 theorem buildFont_spec (W : World) (t : Tables) (spec : FontSpec) (src : List (Option Nat))
     (h : TablesOk W t) :
     (buildFont W t spec src).1 = fontPure W spec src ∧ TablesOk W (buildFont W t spec src).2 := by
   have h1 := useCMapEffect_ok W t spec h
-  have hc := getCMap_spec W (useCMapEffect W t spec) spec.cmap h1
-  have hu := getUMap_spec W (getCMap W (useCMapEffect W t spec) spec.cmap).2 spec.umap hc.2
+  have hc := cmapStep_spec W (useCMapEffect W t spec) spec h1
+  have hu := getUMap_spec W (cmapStep W (useCMapEffect W t spec) spec).2 spec.umap hc.2
   unfold buildFont fontPure
   by_cases k0 : spec.kind = 0
   · simp only [k0, if_true]
@@ -501,8 +511,12 @@ theorem useCMapEffect_le (W : World) (t : Tables) (spec : FontSpec) : TLe t (use
 theorem buildFont_le (W : World) (t : Tables) (spec : FontSpec) (src : List (Option Nat)) :
     TLe t (buildFont W t spec src).2 := by
   have h1 := useCMapEffect_le W t spec
-  have h2 := getCMap_le W (useCMapEffect W t spec) spec.cmap
-  have h3 := getUMap_le W (getCMap W (useCMapEffect W t spec) spec.cmap).2 spec.umap
+  have h2 : TLe (useCMapEffect W t spec) (cmapStep W (useCMapEffect W t spec) spec).2 := by
+    unfold cmapStep
+    split
+    · exact TLe.refl _
+    · exact getCMap_le W _ _
+  have h3 := getUMap_le W (cmapStep W (useCMapEffect W t spec) spec).2 spec.umap
   unfold buildFont
   by_cases k0 : spec.kind = 0
   · simp only [k0, if_true]; exact h1
